@@ -6,13 +6,20 @@ fn hex(b: &[u8]) -> String {
     b.iter().map(|x| format!("{:02x}", x)).collect::<Vec<_>>().join("")
 }
 
-/// delivers at most `step` bytes per read call
+/// delivers at most `step` bytes per read call; the call with index `eintr_at` fails with Interrupted instead
 struct Dribble<'a> {
     data: &'a [u8],
     step: usize,
+    calls: usize,
+    eintr_at: usize,
 }
 impl<'a> std::io::Read for Dribble<'a> {
     fn read(&mut self, dst: &mut [u8]) -> std::io::Result<usize> {
+        let call = self.calls;
+        self.calls += 1;
+        if call == self.eintr_at {
+            return Err(std::io::ErrorKind::Interrupted.into());
+        }
         let n = dst.len().min(self.step).min(self.data.len());
         dst[..n].copy_from_slice(&self.data[..n]);
         self.data = &self.data[n..];
@@ -37,26 +44,33 @@ fn strings(alphabet: &[u8], maxlen: usize, f: &mut dyn FnMut(&[u8])) {
 
 #[test]
 fn verif_cex_chunker_tiles_the_stream() {
-    strings(&[0x00, 0xfd, 0xfe], 7, &mut |s: &[u8]| {
+    strings(&[0x00, 0xfd, 0xfe], 6, &mut |s: &[u8]| {
         for block in 0..=5usize {
             for step in [1usize, 2, 1000] {
+              // one interrupted call at every position of the schedule (usize::MAX = none); a caller retries on EINTR
+              for eintr_at in [usize::MAX, 0, 1, 2, 3, 4, 5] {
                 let mut arena = owning_iovec::ByteArena::default();
                 let mut chunker = StreamChunker::default();
-                let mut reader = Dribble { data: s, step };
+                let mut reader = Dribble { data: s, step, calls: 0, eintr_at };
                 let mut rebuilt: Vec<u8> = Vec::new();
                 let mut prev_data_ended_in_fe = false;
                 let mut pumps = 0;
                 loop {
                     pumps += 1;
                     if pumps > 64 {
-                        println!("VERIF-CEX kind=chunker-no-eof input={} block={} step={}", hex(s), block, step);
+                        println!("VERIF-CEX kind=chunker-no-eof input={} block={} step={} eintr_at={}", hex(s), block, step, eintr_at);
                         panic!("VERIF-CEX");
                     }
                     let bad = |what: &str| -> ! {
-                        println!("VERIF-CEX kind=chunker-{} input={} block={} step={}", what, hex(s), block, step);
+                        println!("VERIF-CEX kind=chunker-{} input={} block={} step={} eintr_at={}", what, hex(s), block, step, eintr_at);
                         panic!("VERIF-CEX {}", what);
                     };
-                    match chunker.pump(&mut arena, &mut reader, block).expect("no I/O error") {
+                    let chunk = match chunker.pump(&mut arena, &mut reader, block) {
+                        Ok(c) => c,
+                        Err(e) if e.kind() == std::io::ErrorKind::Interrupted => continue,
+                        Err(_) => bad("io-error"),
+                    };
+                    match chunk {
                         Chunk::Eof => {
                             if rebuilt != s {
                                 bad("eof-before-end");
@@ -89,6 +103,7 @@ fn verif_cex_chunker_tiles_the_stream() {
                         }
                     }
                 }
+              }
             }
         }
     });
